@@ -45,8 +45,20 @@ Theorem C01_refuted_optional_zero_size :
   Encode true s v = Ok [0; 0; 0; 0] /\ Decode true s [0; 0; 0; 0] = Ok (VL [VNil], 4%nat) /\ VL [VNil] <> v.
 Proof. exact refuted_optional_zero_size. Qed.
 
+(* Regression for fix a52b77b (formerly finding zero-size-element-roundtrip-decode-fails): the lexical + no-duplicates
+   validator used "prev == nil" as its first-element test, so validated Encode accepted [{} {}] of []struct{} (bytes 02)
+   which validated Decode rejects. Encoder and decoder now agree. *)
+Example C01_fixed_zero_size_duplicates :
+  let s := SSlice L8 (mkAR 0 0 true true false false [] false) (SStruct None FNil) in
+  let v := VL [VL []; VL []] in
+  Encode true s v = Err EDup /\ Decode true s [2] = Err EDup /\
+  Encode false s v = Ok [2] /\ Decode false s [2] = Ok (v, 1%nat).
+Proof. exact fixed_zero_size_duplicates. Qed.
+
 Print Assumptions C01_roundtrip.
 Print Assumptions C01_roundtrip_api.
 Print Assumptions C01_deterministic.
 Print Assumptions C01_deterministic_sorted_slice.
+Print Assumptions C01_roundtrip_nonvacuous.
 Print Assumptions C01_refuted_optional_zero_size.
+Print Assumptions C01_fixed_zero_size_duplicates.
